@@ -84,8 +84,33 @@ partial def parseFields (toks : List String) : Option Obj :=
 
 def hexStr (s : String) : String := hex (s.toUTF8.toList.map (·.toNat))
 
+/-- `print cyc <top> | e … | e … |`: container heap (elements `i<n>` or `c<addr>`), rendered the way
+    `String()` of the slice at `top` does: the top container's elements through `SafeStr` -/
+def cycCmd (args : List String) : String :=
+  match args with
+  | top :: "|" :: rest =>
+    let secs := rest.foldr (fun t acc => if t = "|" then [] :: acc else match acc with
+      | c :: r => (t :: c) :: r
+      | [] => [[t]]) [[]]
+    let heap : CHeap := secs.map fun sec => sec.filterMap fun t =>
+      match t.toList with
+      | 'i' :: ds => (String.ofList ds).toInt?.map CVal.int
+      | 'c' :: ds => (String.ofList ds).toNat?.map CVal.cref
+      | _ => none
+    match top.toNat? with
+    | some a =>
+      match heap[a]? with
+      | some elems =>
+        match elems.mapM (renderC heap (heap.length + 1) []) with
+        | some parts => hexStr ("[" ++ join parts ++ "]")
+        | none => "fuel"
+      | none => "bad-op"
+    | none => "bad-op"
+  | _ => "bad-op"
+
 def printCmd (h : Heap) (args : List String) : Heap × String :=
   match args with
+  | "cyc" :: rest => (h, cycCmd rest)
   | ["new"] => ([], "ok")
   | "obj" :: toks => match parseFields toks with
     | some o => (h ++ [o], "ok")
